@@ -19,8 +19,10 @@ each `ask`, and read from what the optimizer itself recorded: `es.noise`,
 `_solution_z`), new mean = log-rank-weighted average of the selected parents
 inside their coordinate hull, zero parents change nothing, same permutation
 with other ranking values gives a bit-identical state, `reset` equals a fresh
-instance on every public attribute, gradient ascent / Adam follow a float
-reference of the published rules.
+instance on every public attribute (the fresh instance is built from an
+independent copy of the reset point, while the optimizer under test receives
+the very array object it was given before; that object must never change),
+gradient ascent / Adam follow a float reference of the published rules.
 """
 import copy
 import math
@@ -103,7 +105,11 @@ RULE = ("one stratum per native strategy (CMA-ES, sep-CMA-ES, LM-MA-ES, OpenAI-E
         "the thorough tier), then a history of ask/tell iterations with a uniformly random ranking permutation and a "
         "parent count drawn from 0..batch (0, 1, batch//2 and batch over-weighted), 30 % of the histories ranked by a "
         "fixed linear objective instead (drives the paths one way: hsig = 0, growing sigma, check_stop), interleaved "
-        "resets; plus gradient-"
+        "resets. Every case keeps ONE caller-side x0 / theta0 object (70 % an ndarray of exactly the optimizer's dtype, "
+        "else a strided view, list, tuple or wider float array): it is handed to the constructor (gradient optimizers: "
+        "in 30 % of the cases to two optimizers) and to 70-75 % of the later resets as the identical object, it is "
+        "checksummed around every call, and after each reset all public state must equal a fresh instance built from an "
+        "independent copy of the original values before stepping continues; plus gradient-"
         "optimizer histories (dyadic exact stream and rounded stream, with and without L2 term, with resets) and pycma "
         "wrapper histories. A strategy case is non-trivial when some iteration selects >= 2 parents under a non-identity "
         "permutation; a gradient case when >= 2 non-zero gradients are stepped; counted once per distinct op list")
@@ -506,8 +512,15 @@ def run_es_case(case):
     enable_numba_cache()
     warnings.simplefilter("ignore")
     es = make_es(case)
-    x0 = np.array(case["x0"], dtype=dt)
-    es.reset(x0)
+    # ONE caller-side x0 object per case: it goes to the first reset and to every later reset marked `same`
+    # (and to the resets that follow a check_stop); it is checksummed around every call
+    layout = case.get("x0_layout", "exact")
+    start = CallerArray(case["x0"], layout, dt)
+    x0 = start.fresh_copy(dt)  # independent copy of the original values (never handed to the optimizer under test)
+    es.reset(start.obj)
+    f = start.changed("reset#0", "reset")
+    if f:
+        return f
     shadow = np.random.default_rng(case["seed"])  # same construction as in every __init__
     lb, ub = bounds_arrays(case, dt)
     lb64, ub64 = lb.astype(np.float64), ub.astype(np.float64)
@@ -518,46 +531,59 @@ def run_es_case(case):
     if kind == "openai":
         adam_ref = {"m": np.zeros(dim), "v": np.zeros(dim), "t": 0,  # float reference (oracle)
                     "mm": ["0"] * dim, "mv": ["0"] * dim, "mt": 0}  # model-threaded moments
-    # reset must give the model's initial state
-    f = check_reset_model(case, es, x0, "reset#0")
+
+    def after_reset(where, obj_layout_values, values):
+        """public state equals a fresh instance reset to an independent copy of the values; model's reset state"""
+        fresh = make_es(case)
+        fresh.reset(make_start(obj_layout_values, layout, dt))
+        d = diff_public(es, fresh)
+        if d:
+            return fail("oracle", where, f"after reset public attributes differ from a fresh instance built from an "
+                        f"independent copy of the reset point: {d}")
+        f2 = check_reset_model(case, es, values, where)
+        if f2:
+            return f2
+        if adam_ref is not None:
+            adam_ref.update(m=np.zeros(dim), v=np.zeros(dim), t=0, mm=["0"] * dim, mv=["0"] * dim, mt=0)
+        return None
+    f = after_reset("reset#0", case["x0"], x0)
     if f:
         return f
     try:
         for step, op in enumerate(case["ops"]):
             where = f"op#{step} {op['op']}"
             if op["op"] == "reset":
-                x1 = np.array(op["x0"], dtype=dt)
-                es.reset(x1)
-                fresh = make_es(case)
-                fresh.reset(x1)
-                d = diff_public(es, fresh)
-                if d:
-                    return fail("oracle", where, f"after reset public attributes differ from a fresh instance: {d}")
-                f = check_reset_model(case, es, x1, where)
+                if op.get("same", False):
+                    es.reset(start.obj)  # the identical array object, after a history
+                    f = start.changed(where, "reset") or after_reset(where, case["x0"], x0)
+                    count(f"{kind}:reset-same-object")
+                else:
+                    x1 = np.array(op["x0"], dtype=dt)
+                    es.reset(make_start(op["x0"], layout, dt))
+                    f = start.changed(where, "reset") or after_reset(where, op["x0"], x1)
                 if f:
                     return f
-                if adam_ref is not None:
-                    adam_ref.update(m=np.zeros(dim), v=np.zeros(dim), t=0, mm=["0"] * dim, mv=["0"] * dim, mt=0)
                 count(f"{kind}:reset")
                 continue
             if width_guard(case, es, kind, lb64, ub64):
                 count(f"{kind}:stop-width-guard")
                 return None
             f = es_iteration(case, es, shadow, op, where, kind, dt, tol, dim, batch, lb, ub, lb64, ub64, adam_ref)
+            f = start.changed(where, "ask/tell") or f
             if f:
                 return f
             # documented protocol: after tell, check_stop(); when it says stop the optimizer is reset
             # (histories that keep going past a stop condition are outside the usage the classes document)
-            if es.check_stop(np.sort(perm_vals(case, op, batch, 0))[::-1]):
+            stop = es.check_stop(np.sort(perm_vals(case, op, batch, 0))[::-1])
+            f = start.changed(where, "check_stop")
+            if f:
+                return f
+            if stop:
                 count(f"{kind}:check_stop-reset")
-                es.reset(x0)
-                fresh = make_es(case)
-                fresh.reset(x0)
-                d = diff_public(es, fresh)
-                if d:
-                    return fail("oracle", where, f"after reset public attributes differ from a fresh instance: {d}")
-                if adam_ref is not None:
-                    adam_ref.update(m=np.zeros(dim), v=np.zeros(dim), t=0, mm=["0"] * dim, mv=["0"] * dim, mt=0)
+                es.reset(start.obj)
+                f = start.changed(where, "reset") or after_reset(where, case["x0"], x0)
+                if f:
+                    return f
     except Stop as s:
         count(f"{kind}:stop-{s}")
         return None
@@ -1024,94 +1050,146 @@ def openai_tell(case, es, before, noise, perm, where, tol, dim, batch, ref, mirr
 # gradient optimizers
 
 
-def run_grad_case(case):
-    from ribs.emitters.opt import AdamOpt, GradientAscentOpt
-    dim = case["dim"]
-    tol = TOL[F64]
-    theta0 = np.array(case["theta0"], dtype=np.float64)
-    exact = case.get("exact", False)
-    if case["kind"] == "ascent":
-        opt = GradientAscentOpt(theta0, case["lr"])
-        mth = [Fraction(float(x)) for x in theta0]
-        base = list(mth)
-        gsum = [Fraction(0)] * dim
-        for step, op in enumerate(case["ops"]):
-            where = f"op#{step} {op['op']}"
-            if op["op"] == "reset":
-                t1 = np.array(op["theta0"], dtype=np.float64)
-                opt.reset(t1)
-                if not np.array_equal(opt.theta, t1):
-                    return fail("oracle", where, "theta after reset differs from theta0")
-                mth = [Fraction(float(x)) for x in t1]
-                base, gsum = list(mth), [Fraction(0)] * dim
-                continue
-            g = np.array(op["g"], dtype=np.float64)
-            prev = np.array(opt.theta)
-            opt.step(g)
-            th = np.asarray(opt.theta, dtype=np.float64)
-            lr = Fraction(float(case["lr"]))
-            want = [Fraction(float(prev[j])) + lr * Fraction(float(g[j])) for j in range(dim)]
-            gsum = [gsum[j] + Fraction(float(g[j])) for j in range(dim)]
-            r = ask_model(f"ascent-step n={dim} lr={fq(case['lr'])} theta={','.join(fq_(x) for x in mth)} g={qv(g)}")
-            mth = pvq(r["theta"])
-            if exact:
-                got = [Fraction(float(x)) for x in th]
-                if got != want:
-                    return fail("oracle", where, f"theta' != theta + lr*g exactly: {th.tolist()}")
-                closed = [base[j] + lr * gsum[j] for j in range(dim)]
-                if got != closed:
-                    return fail("oracle", where, "theta_n != theta_0 + lr*sum(g) exactly")
-                if got != mth:
-                    return fail("corr", where, f"theta impl={th.tolist()} model={[float(x) for x in mth]}")
-            else:
-                sc = max(1.0, amax(th), amax(prev), abs(case["lr"]) * amax(g))
-                msg = close("ascent.theta-oracle", th, [float(x) for x in want], sc, tol)
-                if msg:
-                    return fail("oracle", where, "theta' != theta + lr*g: " + msg)
-                msg = close("ascent.theta", th, [float(x) for x in mth], sc * (step + 1), tol)
-                if msg:
-                    return fail("corr", where, msg)
+# ---- the caller's start point: ONE object per case, handed to the constructor and to every reset
+
+
+def make_start(values, layout, dt):
+    """the caller-side object holding x0 / theta0 (layout 'exact' = ndarray of exactly the optimizer's dtype, so
+    that no implicit conversion copy can hide an alias)"""
+    vals = [float(v) for v in values]
+    if layout == "list":
+        return vals
+    if layout == "tuple":
+        return tuple(vals)
+    if layout == "noncontig":
+        big = np.zeros(2 * len(vals), dtype=dt)
+        big[::2] = vals
+        return big[::2]
+    if layout == "wider":  # float64 array for a float32 optimizer
+        return np.array(vals, dtype=np.float64)
+    return np.array(vals, dtype=dt)
+
+
+def fingerprint(obj):
+    if isinstance(obj, np.ndarray):
+        return ("arr", str(obj.dtype), obj.shape, obj.strides, obj.tobytes())
+    return ("seq", type(obj).__name__, tuple(obj))
+
+
+class CallerArray:
+    """checksums the caller's start object around every call into the optimizer: it must never change"""
+
+    def __init__(self, values, layout, dt):
+        self.obj = make_start(values, layout, dt)
+        self.fp = fingerprint(self.obj)
+        self.values = np.array(values, dtype=np.float64)  # independent copy of the original values
+
+    def changed(self, where, what):
+        if fingerprint(self.obj) != self.fp:
+            now = np.asarray(self.obj, dtype=np.float64).tolist()
+            return Failure("oracle", f"{where}: the caller's start array (passed to the constructor / reset) was "
+                           f"modified by {what}: now {now}, originally {self.values.tolist()}", key="alias-start")
         return None
-    cfg = case["adam"]
-    opt = AdamOpt(theta0, **cfg)
-    m, v, t = np.zeros(dim), np.zeros(dim), 0
-    mm, mv, mt = ["0"] * dim, ["0"] * dim, 0
-    for step, op in enumerate(case["ops"]):
-        where = f"op#{step} {op['op']}"
-        if op["op"] == "reset":
-            t1 = np.array(op["theta0"], dtype=np.float64)
-            opt.reset(t1)
-            if not np.array_equal(opt.theta, t1):
-                return fail("oracle", where, "theta after reset differs from theta0")
-            fresh = AdamOpt(t1, **cfg)
-            g0 = np.ones(dim)
-            a, b = copy.deepcopy(opt), fresh
-            a.step(g0)
-            b.step(g0)
-            if not np.array_equal(a.theta, b.theta):
-                return fail("oracle", where, "after reset the next step differs from a fresh optimizer's")
-            m, v, t = np.zeros(dim), np.zeros(dim), 0
-            mm, mv, mt = ["0"] * dim, ["0"] * dim, 0
-            continue
-        g = np.array(op["g"], dtype=np.float64)
+
+    def fresh_copy(self, dt):
+        return np.array(self.values, dtype=dt)
+
+
+class GradTrack:
+    """one gradient optimizer under test with its float reference and its model-threaded state"""
+
+    def __init__(self, case, start_obj, values):
+        from ribs.emitters.opt import AdamOpt, GradientAscentOpt
+        self.case = case
+        self.kind = case["kind"]
+        self.dim = case["dim"]
+        self.make = (lambda th: GradientAscentOpt(th, case["lr"])) if self.kind == "ascent" else \
+            (lambda th: AdamOpt(th, **case["adam"]))
+        self.opt = self.make(start_obj)
+        self.last = np.array(self.opt.theta)
+        self.restart(values)
+
+    def restart(self, values):
+        """reference / model state of a fresh optimizer at `values`"""
+        dim = self.dim
+        self.base = [Fraction(float(x)) for x in values]
+        self.mth = list(self.base)
+        self.gsum = [Fraction(0)] * dim
+        self.nsteps = 0
+        self.m, self.v, self.t = np.zeros(dim), np.zeros(dim), 0
+        self.mm, self.mv, self.mt = ["0"] * dim, ["0"] * dim, 0
+
+    def check_fresh(self, where, values):
+        """public state (and the behaviour of the next step) equals a fresh instance built from an
+        independent copy of the original values"""
+        vals = np.array(values, dtype=np.float64)
+        th = np.asarray(self.opt.theta)
+        if th.shape != vals.shape or not np.array_equal(th.astype(np.float64), vals):
+            return fail("oracle", where, f"after reset theta = {th.tolist()}, the reset point is {vals.tolist()}")
+        fresh = self.make(np.array(vals))
+        d = diff_public(self.opt, fresh)
+        if d:
+            return fail("oracle", where, f"after reset public attributes differ from a fresh instance: {d}")
+        a = copy.deepcopy(self.opt)
+        g0 = np.ones(self.dim)
+        a.step(g0)
+        fresh.step(g0)
+        if not np.array_equal(a.theta, fresh.theta):
+            return fail("oracle", where, "after reset the next step differs from a fresh optimizer's")
+        return None
+
+    def step(self, where, g):
+        case, dim, tol = self.case, self.dim, TOL[F64]
+        opt = self.opt
         prev = np.array(opt.theta, dtype=np.float64)
         opt.step(g)
         th = np.asarray(opt.theta, dtype=np.float64)
         if not np.all(np.isfinite(th)):
             return fail("oracle", where, "theta not finite")
-        want, m, v, t = adam_float(cfg, prev, m, v, t, g)
+        self.nsteps += 1
+        if self.kind == "ascent":
+            lr = Fraction(float(case["lr"]))
+            want = [Fraction(float(prev[j])) + lr * Fraction(float(g[j])) for j in range(dim)]
+            self.gsum = [self.gsum[j] + Fraction(float(g[j])) for j in range(dim)]
+            closed = [self.base[j] + lr * self.gsum[j] for j in range(dim)]
+            r = ask_model(f"ascent-step n={dim} lr={fq(case['lr'])} theta={','.join(fq_(x) for x in self.mth)} "
+                          f"g={qv(g)}")
+            self.mth = pvq(r["theta"])
+            if case.get("exact", False):
+                got = [Fraction(float(x)) for x in th]
+                if got != want:
+                    return fail("oracle", where, f"theta' != theta + lr*g exactly: {th.tolist()}")
+                if got != closed:
+                    return fail("oracle", where, f"theta_n != theta_0 + lr*sum(g) exactly (theta_0 = the reset point): "
+                                f"{th.tolist()} expected {[float(x) for x in closed]}")
+                if got != self.mth:
+                    return fail("corr", where, f"theta impl={th.tolist()} model={[float(x) for x in self.mth]}")
+            else:
+                sc = max(1.0, amax(th), amax(prev), abs(case["lr"]) * amax(g))
+                msg = close("ascent.theta-oracle", th, [float(x) for x in want], sc, tol)
+                if msg:
+                    return fail("oracle", where, "theta' != theta + lr*g: " + msg)
+                msg = close("ascent.closed-form", th, [float(x) for x in closed], sc * self.nsteps, tol)
+                if msg:
+                    return fail("oracle", where, "theta_n != theta_0 + lr*sum(g) (theta_0 = the reset point): " + msg)
+                msg = close("ascent.theta", th, [float(x) for x in self.mth], sc * self.nsteps, tol)
+                if msg:
+                    return fail("corr", where, msg)
+            return None
+        cfg = case["adam"]
+        want, self.m, self.v, self.t = adam_float(cfg, prev, self.m, self.v, self.t, g)
         sc = max(1.0, amax(prev, th))
         msg = close("adam.theta-oracle", th, want, sc, tol)
         if msg:
             return fail("oracle", where, "theta is not the Adam ascent step (Kingma & Ba with bias correction, sign "
                         "flipped for ascent, L2 term): " + msg)
-        if t == 1 and cfg["l2_coeff"] == 0:
+        if self.t == 1 and cfg["l2_coeff"] == 0:
             mv_ = th - prev
             if np.any(np.sign(mv_) != np.sign(g)):
                 return fail("oracle", where, f"first step does not have the sign of the gradient: g={g.tolist()} "
                             f"step={mv_.tolist()}")
-        head = (f"adam-step n={dim} {adam_tokens(cfg)} theta={qv(prev)} m={','.join(mm)} v={','.join(mv)} t={mt} "
-                f"g={qv(g)}")
+        head = (f"adam-step n={dim} {adam_tokens(cfg)} theta={qv(prev)} m={','.join(self.mm)} "
+                f"v={','.join(self.mv)} t={self.mt} g={qv(g)}")
         r = adam_model(head, dim)
         if "err" in r:
             return fail("corr", where, f"model rejected the step: {r['err']}")
@@ -1120,9 +1198,59 @@ def run_grad_case(case):
         msg = close("adam.theta", th, pv(r["theta"]), sc, tol)
         if msg:
             return fail("corr", where, msg)
-        mm = [fq(float(x)) for x in pvq(r["m"])]
-        mv = [fq(float(x)) for x in pvq(r["v"])]
-        mt = int(r["t"])
+        self.mm = [fq(float(x)) for x in pvq(r["m"])]
+        self.mv = [fq(float(x)) for x in pvq(r["v"])]
+        self.mt = int(r["t"])
+        return None
+
+
+def run_grad_case(case):
+    """One caller-side theta0 object per case: it goes to the constructor of every optimizer of the case and to
+    every `reset` marked `same`; it is checksummed around every call; after each reset the optimizer must equal a
+    fresh one built from an independent copy of the original values, and stepping continues from there."""
+    start = CallerArray(case["theta0"], case.get("start_layout", "exact"), np.float64)
+    tracks = [GradTrack(case, start.obj, start.values)]
+    f = start.changed("constructor", "the constructor")
+    if f:
+        return f
+    if case.get("twin"):
+        tracks.append(GradTrack(case, start.obj, start.values))
+        count("gradopt:two-optimizers-one-start-array")
+    for k, tr in enumerate(tracks):
+        f = tr.check_fresh(f"constructor#{k}", start.values)
+        if f:
+            return f
+    for step, op in enumerate(case["ops"]):
+        where = f"op#{step} {op['op']}"
+        tr = tracks[op.get("who", 0) % len(tracks)]
+        if op["op"] == "reset":
+            if op.get("same", False):
+                tr.opt.reset(start.obj)
+                vals = start.values
+                count("gradopt:reset-same-object")
+            else:
+                vals = np.array(op["theta0"], dtype=np.float64)
+                tr.opt.reset(np.array(vals))
+            f = start.changed(where, "reset") or tr.check_fresh(where, vals)
+            if f:
+                return f
+            tr.restart(vals)
+            tr.last = np.array(tr.opt.theta)
+            for other in tracks:
+                if other is not tr and not np.array_equal(np.asarray(other.opt.theta), other.last):
+                    return fail("oracle", where, "a reset of one optimizer moved another optimizer built from the "
+                                "same theta0 array")
+            continue
+        g = np.array(op["g"], dtype=np.float64)
+        f = tr.step(where, g) or start.changed(where, "step")
+        if f:
+            return f
+        # a call on one optimizer must not move another optimizer built from the same start array
+        tr.last = np.array(tr.opt.theta)
+        for other in tracks:
+            if other is not tr and not np.array_equal(np.asarray(other.opt.theta), other.last):
+                return fail("oracle", where, "a call on one optimizer moved another optimizer built from the same "
+                            "theta0 array")
     return None
 
 
@@ -1143,8 +1271,12 @@ def run_pycma_case(case):
                                       dtype=dt, lower_bounds=[None if math.isinf(x) else float(x) for x in lb] if bounded else None,
                                       upper_bounds=[None if math.isinf(x) else float(x) for x in ub] if bounded else None)
     es = make()
-    x0 = np.array(case["x0"], dtype=np.float64)
-    es.reset(x0)
+    start = CallerArray(case["x0"], case.get("x0_layout", "exact"), np.float64)  # one caller-side x0 object
+    x0 = start.fresh_copy(np.float64)
+    es.reset(start.obj)
+    f = start.changed("reset#0", "reset")
+    if f:
+        return f
     center = np.array(case["x0"], dtype=np.float64)
 
     def check_fresh(where, x):
@@ -1157,6 +1289,10 @@ def run_pycma_case(case):
             return fail("oracle", where, f"sigma after reset {inner.sigma} != sigma0")
         if es.batch_size != batch:
             return fail("oracle", where, f"batch_size {es.batch_size} != {batch}")
+        mean = getattr(inner, "mean", None)
+        if mean is not None and not bounded:
+            if not np.array_equal(np.asarray(mean, dtype=np.float64), np.asarray(x, dtype=np.float64)):
+                return fail("oracle", where, f"mean after reset {np.asarray(mean).tolist()} != x0 {np.asarray(x).tolist()}")
         return None
     f = check_fresh("reset#0", x0)
     if f:
@@ -1164,14 +1300,16 @@ def run_pycma_case(case):
     for step, op in enumerate(case["ops"]):
         where = f"op#{step} {op['op']}"
         if op["op"] == "reset":
-            x1 = np.array(op["x0"], dtype=np.float64)
-            es.reset(x1)
-            center = x1
-            f = check_fresh(where, x1)
+            es.reset(start.obj)  # the identical array object, after a history
+            center = x0
+            f = start.changed(where, "reset") or check_fresh(where, x0)
             if f:
                 return f
             continue
         sols = np.array(es.ask())
+        f = start.changed(where, "ask")
+        if f:
+            return f
         if sols.shape != (batch, dim):
             return fail("oracle", where, f"ask returned shape {sols.shape}")
         if sols.dtype != dt:
@@ -1186,6 +1324,9 @@ def run_pycma_case(case):
             es.tell(np.argsort(-vals), vals2, int(op["mu"]))
         else:
             es.tell(np.argsort(-vals), vals, int(op["mu"]))
+        f = start.changed(where, "tell")
+        if f:
+            return f
         inner = getattr(es, "_es", None)
         if inner is not None and not (math.isfinite(float(inner.sigma)) and float(inner.sigma) > 0):
             return fail("oracle", where, f"sigma = {inner.sigma}")
@@ -1222,14 +1363,15 @@ def gen_bounds(rng, dim, x0, sigma0, layout):
     return lb, ub
 
 
-def gen_perm_ops(rng, batch, n_iter, dim, x0_mag, mu_max=None, reset_p=0.06, directional=False):
+def gen_perm_ops(rng, batch, n_iter, dim, x0_mag, mu_max=None, reset_p=0.1, directional=False):
     ops = []
     direction = [rng.choice([-1.0, -0.5, 0.0, 0.5, 1.0, 2.0]) for _ in range(dim)]
     if not any(direction):
         direction[0] = 1.0
     for _ in range(n_iter):
         if ops and rng.random() < reset_p:
-            ops.append({"op": "reset", "x0": [dyadic(rng, -x0_mag, x0_mag, 8) for _ in range(dim)]})
+            ops.append({"op": "reset", "same": rng.random() < 0.7,
+                        "x0": [dyadic(rng, -x0_mag, x0_mag, 8) for _ in range(dim)]})
             continue
         perm = list(range(batch))
         rng.shuffle(perm)
@@ -1273,6 +1415,8 @@ def gen_es(kind, mirror=False, quick=True):
         n_iter = rng.randint(3, 15) if quick else rng.randint(5, 60)
         case = {"kind": kind, "dim": dim, "batch": batch, "dtype": dtype, "seed": rng.randrange(1 << 31),
                 "sigma0": sigma0, "x0": x0, "lb": lb, "ub": ub, "layout": layout,
+                "x0_layout": rng.choice(["exact"] * 13 + ["noncontig", "noncontig", "list", "list", "tuple"] +
+                                        (["wider", "wider"] if dtype == F32 else ["exact", "exact"])),
                 "ops": gen_perm_ops(rng, batch, n_iter, dim, 2, directional=rng.random() < 0.3)}
         if not quick and layout == "box" and rng.random() < 0.15:
             # scalar bounds (0-d arrays inside the optimizer)
@@ -1297,17 +1441,26 @@ def gen_grad(quick=True):
         n = rng.randint(2, 20) if quick else rng.randint(5, 80)
         kind = rng.choice(["ascent", "ascent", "adam", "adam", "adam"])
         exact = kind == "ascent" and rng.random() < 0.6
+        twin = rng.random() < 0.3
         ops = []
         for _ in range(n):
-            if ops and rng.random() < 0.08:
-                ops.append({"op": "reset", "theta0": [dyadic(rng, -4, 4, 16) for _ in range(dim)]})
+            who = rng.randint(0, 1) if twin else 0
+            if ops and rng.random() < 0.15:
+                # most resets hand back the very object the optimizer was constructed from
+                if rng.random() < 0.75:
+                    ops.append({"op": "reset", "same": True, "who": who})
+                else:
+                    ops.append({"op": "reset", "same": False, "who": who,
+                                "theta0": [dyadic(rng, -4, 4, 16) for _ in range(dim)]})
             elif exact:
-                ops.append({"op": "step", "g": [dyadic(rng, -4, 4, 16) for _ in range(dim)]})
+                ops.append({"op": "step", "who": who, "g": [dyadic(rng, -4, 4, 16) for _ in range(dim)]})
             else:
                 sc = rng.choice([1e-3, 1.0, 1.0, 30.0])
-                ops.append({"op": "step", "g": [rng.choice([0.0, rng.gauss(0, sc)]) if rng.random() < 0.1 else
-                                                rng.gauss(0, sc) for _ in range(dim)]})
-        case = {"kind": kind, "dim": dim, "ops": ops, "exact": exact}
+                ops.append({"op": "step", "who": who,
+                            "g": [rng.choice([0.0, rng.gauss(0, sc)]) if rng.random() < 0.1 else
+                                  rng.gauss(0, sc) for _ in range(dim)]})
+        case = {"kind": kind, "dim": dim, "ops": ops, "exact": exact, "twin": twin,
+                "start_layout": rng.choice(["exact"] * 7 + ["noncontig", "list", "tuple"])}
         if exact:
             case["theta0"] = [dyadic(rng, -4, 4, 16) for _ in range(dim)]
             case["lr"] = rng.choice([0.125, 0.25, 0.5, 1.0, 2.0, 0.75])
@@ -1339,6 +1492,7 @@ def gen_pycma(quick=True):
                 # keep the new mean inside the box
                 op["x0"] = list(x0)
         return {"kind": "pycma", "dim": dim, "batch": batch, "dtype": rng.choice([F64, F64, F32]),
+                "x0_layout": rng.choice(["exact", "exact", "exact", "list"]),
                 "seed": rng.randrange(1 << 31), "sigma0": sigma0, "x0": x0, "lb": lb, "ub": ub, "layout": layout,
                 "ops": ops}
     return gen
